@@ -27,6 +27,7 @@ import Driver.BulkDrv
 import Driver.StopDrv
 import Driver.StopRefDrv
 import Driver.FifoDrv
+import Driver.AgentDrv
 /-! `driver <model>`: reads harness output (cases) on stdin, prints one verdict line per case. -/
 open Driver
 
@@ -61,6 +62,7 @@ def dispatch (model : String) (c : Case) : String :=
   | "stop" => StopDrv.runCase c
   | "stopref" => StopRefDrv.runCase c
   | "fifo" => FifoDrv.runCase c
+  | "agent" => AgentDrv.runCase c
   | _ => s!"case {c.id} reject 0 unknown-model-{model}"
 
 def main (args : List String) : IO UInt32 := do
